@@ -219,11 +219,15 @@ class QueuePool(Pool):
         while True:
             try:
                 conn = self._pool.get(False)
-                conn.close()
             except sqla_queue.Empty:
                 break
+            try:
+                conn.close()
+            finally:
+                # only the idle entries leave the pool; entries that are
+                # checked out are still counted and come back later
+                self._dec_overflow()
 
-        self._overflow = 0 - self.size()
         self.logger.info("Pool disposed. %s", self.status())
 
     def status(self) -> str:
